@@ -11,6 +11,7 @@ from ..cfg import cfg_of
 from ..model import FunctionInfo, ClassInfo, AnalysisError
 from ..report import Ctx
 from ..util import norm, fn_body_nodes, walk_local, kwarg, is_none_test, lexical_guards, atomic_facts
+from ..pat import Snips
 from .common import names_in
 
 EXPLANATION = (
@@ -240,31 +241,36 @@ def rule_gridworld(ctx: Ctx):
     tests = [ast.unparse(st.test) for st in body[:2] if isinstance(st, ast.If)]
     ok = tests == [f"self.is_absorbing({s})", f"{s} in self.absorbing_states"] and all(isinstance(st.body[0], ast.Return) and ast.unparse(st.body[0].value) == "TERMINALDIST" for st in body[:2])
     ctx.check(ok, "GW-3", f, body[0], "the terminal state and absorbing-feature cells go to the terminal state first", str(tests), "terminal / absorbing-feature handling does not come first")
-    src = ast.unparse(f.node)
-    ok = "nx, ny = (x + ax, y + ay)" in src and "ns = frozendict({'x': nx, 'y': ny})" in src and f"x, y = ({s}['x'], {s}['y'])" in src \
-        and f"ax, ay = ({a}.get('dx', 0), {a}.get('dy', 0))" in src
-    ctx.check(ok, "GW-2", f, f.node, "moved cell = s + a (component-wise)", "", "the moved cell is not s + a component-wise")
+    S = Snips(f)
+    mv = S.solve([f"x, y = ({s}['x'], {s}['y'])", f"ax, ay = ({a}.get('dx', 0), {a}.get('dy', 0))", "nx, ny = (x + ax, y + ay)", "ns = frozendict({'x': nx, 'y': ny})"])
+    ctx.check(mv is not None, "GW-2", f, mv[1][2] if mv else f.node, "moved cell = s + a (component-wise)", "", "the moved cell is not s + a component-wise")
+    nsn = mv[0]["ns"] if mv else None
     # guards on every definition of the returned distribution that mentions ns
     cfg = cfg_of(f)
-    chain = [n for n in fn_body_nodes(f) if isinstance(n, ast.Assign) and ast.unparse(n.targets[0]) == "bdist"]
+    rets = [n for n in fn_body_nodes(f) if isinstance(n, ast.Return)]
+    outs = [r.value.id for r in rets if isinstance(r.value, ast.Name) and r.value.id != "TERMINALDIST"]
+    bd = outs[-1] if outs else None
+    chain = [n for n in fn_body_nodes(f) if isinstance(n, ast.Assign) and bd is not None and ast.unparse(n.targets[0]) == bd]
+    chain = chain + [r for r in rets if not isinstance(r.value, ast.Name) and r.value is not None]      # direct returns are definitions too
     for d in chain:
-        if "ns" not in names_in(d.value):
+        if nsn is None:
+            break
+        if nsn not in names_in(d.value):
             ctx.check(ast.unparse(d.value) == f"DeterministicDistribution({s})", "GW-1", f, d, "blocked moves stay in place", "", f"blocked move yields `{norm(d.value)}`")
             continue
         gs = atomic_facts([(cfg.nodes[b].ast.test, lab.split("|")[0]) for b, lab in cfg.guards(cfg.node_for(d)) if cfg.nodes[b].kind == "if"])
-        need = [("ns in self._states", True, "inside the grid"), ("ns in self.walls", False, "not a wall"), (f"ns == {s}", False, "actually moved")]
+        need = [(f"{nsn} in self._states", True, "inside the grid"), (f"{nsn} in self.walls", False, "not a wall"), (f"{nsn} == {s}", False, "actually moved")]
         for t, lab, what in need:
             if what == "actually moved" and s not in names_in(d.value):
                 continue        # a one-point distribution on ns is harmless when ns == s
-            ctx.check((t, lab) in gs or (t.replace(f"ns == {s}", f"{s} == ns"), lab) in gs, "GW-1", f, d, f"a distribution over the moved cell is returned only when it is {what}", str(gs),
+            ctx.check((t, lab) in gs or (t.replace(f"{nsn} == {s}", f"{s} == {nsn}"), lab) in gs, "GW-1", f, d, f"a distribution over the moved cell is returned only when it is {what}", str(gs),
                       f"`{norm(d.value, 50)}` is reachable without the path condition `{t}` == {lab}: the agent could enter a cell that is not {what}"
                       + (" (for the stay action the literal {s: 1-p, s: p} collapses to mass p)" if what == "actually moved" else ""))
         if isinstance(d.value, ast.Call) and ast.unparse(d.value.func) == "DictDistribution":
             pairs = literal_pairs(d.value)
-            ok = pairs is not None and {ast.unparse(k): ast.unparse(v).replace(" ", "") for k, v in pairs} == {s: "1-self.success_prob", "ns": "self.success_prob"}
+            ok = pairs is not None and {ast.unparse(k): ast.unparse(v).replace(" ", "") for k, v in pairs} == {s: "1-self.success_prob", nsn: "self.success_prob"}
             ctx.check(ok, "GW-2", f, d, "the move succeeds with exactly the configured success probability", "", f"slip distribution is `{norm(d.value)}`")
-    rets = [n for n in fn_body_nodes(f) if isinstance(n, ast.Return)]
-    ctx.check(any(ast.unparse(r.value) == "bdist" for r in rets), "GW-1", f, f.node, "the guarded distribution is what is returned", "", "a different distribution is returned")
+    ctx.check(len(chain) >= 1 and all(r.value is not None for r in rets), "GW-1", f, f.node, "every returned distribution is one of the guarded definitions", "", "a path returns no distribution")
     rw = G.methods["reward"]
     rs, ra, rns = rw.positional_params[1:4]
     rb = rw.node.body
@@ -272,7 +278,8 @@ def rule_gridworld(ctx: Ctx):
     ctx.check(ok, "GW-4", rw, rb[0], "reward is 0 when either end of the step is the terminal state", "", "terminal steps are not paid 0")
     last = rb[-1]
     p = alg.normalise(last.value) if isinstance(last, ast.Return) else {}
-    ok = p == {(("self._featureRewards.get(f, 0.0)", 1),): Fraction(1), (("self.step_cost", 1),): Fraction(1)} and f"f = self._locFeatures.get({rns}, '')" in ast.unparse(rw.node)
+    SR = Snips(rw)
+    ok = SR.solve([f"f = self._locFeatures.get({rns}, '')", "return self._featureRewards.get(f, 0.0) + self.step_cost"]) is not None and len(p) == 2
     ctx.check(ok, "GW-4", rw, last, "reward = step cost + feature reward of the *entered* cell", alg.show(p), f"reward is `{alg.show(p)}` / feature looked up at the wrong cell")
     ab = G.methods["is_absorbing"]
     ctx.check("== TERMINALSTATE" in ast.unparse(ab.node), "GW-3", ab, ab.node, "only the terminal state is absorbing", "", "absorbing predicate changed")
